@@ -126,6 +126,37 @@ def mutations(lines):
     return out
 
 
+def unicode_documents():
+    """documents whose offending token (the one a diagnostic quotes) consists of 2-, 3- and 4-byte characters behind an
+    ASCII prefix of every length from 0 to 24"""
+    words = []
+    for ch in ("\u00e4", "\u20ac", "\U0001F600"):
+        for j in list(range(0, 5)) + list(range(14, 25)):
+            words.append("a" * j + ch * 10)
+    head = 'ASAP2_VERSION 1 71\n/begin PROJECT p ""\n  /begin MODULE m ""\n'
+    meas = '    /begin MEASUREMENT {name} "" {dt} NO_COMPU_METHOD 1 1 0 255 {extra} /end {end}\n'
+    tail = '  /end MODULE\n/end PROJECT\n'
+    docs, meta = [], []
+
+    def add(site, text, fragment=False):
+        for strict in (True, False):
+            docs.append((text, strict))
+            meta.append({"site": site, "fragment": fragment})
+    for w in words:
+        ok = meas.format(name="m1", dt="UBYTE", extra="", end="MEASUREMENT")
+        add("trailing-string", head + ok + tail + f'"{w}" 5\n')
+        add("trailing-word", head + ok + tail + f'{w}\n')
+        add("unknown-keyword", head + meas.format(name="m1", dt="UBYTE", extra=f"{w} 1", end="MEASUREMENT") + tail)
+        add("unknown-block", head + ok + f"    /begin {w} 1 /end {w}\n" + tail)
+        add("end-tag", head + meas.format(name="m1", dt="UBYTE", extra="", end=w) + tail)
+        add("enum-value", head + meas.format(name="m1", dt=w, extra="", end="MEASUREMENT") + tail)
+        add("identifier", head + meas.format(name="9" + w, dt="UBYTE", extra="", end="MEASUREMENT") + tail)
+        add("string-for-number", head + meas.format(name="m1", dt="UBYTE", extra=f'ECU_ADDRESS "{w}"', end="MEASUREMENT") + tail)
+        add("version", f'ASAP2_VERSION 1 "{w}"\n/begin PROJECT p ""\n' + tail[tail.index("/end PROJECT"):])
+        add("if-data", head + meas.format(name="m1", dt="UBYTE", extra=f'/begin IF_DATA {w} "{w}" /begin {w} /end {w}x /end IF_DATA', end="MEASUREMENT") + tail)
+    return docs, meta
+
+
 def run(tier, selftest):
     t0 = time.time()
     rep = vlib.Reporter(PID)
@@ -194,6 +225,17 @@ def run(tier, selftest):
         rep.violation(f"parser:{'+'.join(names)}:{meta[k]['mutation']}",
                       f"{'strict' if docs[k][1] else 'lenient'} load of a mutated document disagrees with Parser.tla on {names} ({meta[k]}); observed {json.dumps(r.get('e') or [d[:2] for d in r.get('diags', [])])[:200]}",
                       {"kind": "doc", "meta": meta[k], "text": docs[k][0], "strict": docs[k][1]})
+    # (b2) diagnostics embed token texts: tokens of characters outside ASCII at every byte alignment, at every place
+    # where a diagnostic quotes the token (a byte-indexed cut of such a text must not split a character)
+    udocs, umeta = unicode_documents()
+    ures = pc.run_loads(binp, udocs, PID + "u", want=())
+    for i, r in enumerate(ures):
+        if "panic" in r:
+            rep.violation(f"load:panic:unicode:{umeta[i]['site']}", f"load panicked on a non-ASCII token ({umeta[i]}): {r['panic']}", {"kind": "doc", "meta": umeta[i], "text": udocs[i][0], "strict": udocs[i][1]})
+    ufrag = pc.run_loads_fragment(binp, [d for (d, s_), m in zip(udocs, umeta) if m.get("fragment") and not s_], PID + "uf")
+    for r in ufrag:
+        if "panic" in r:
+            rep.violation("load_fragment:panic:unicode", f"load_fragment panicked on a non-ASCII token: {r['panic']}", {"kind": "doc", "meta": {}, "text": "", "strict": False})
     # (c) hostile A2ML, one process per case
     hostile = hostile_cases()
     hres = {}
